@@ -9,6 +9,8 @@ CLAIMED = {
  "C06": ("model_checking", "TLC compares semilegal generators (5), semi_validate over ALL well-formed tuples of both colours, partition laws and well-formedness with Rules!PseudoLegal / Rules!WellFormed", "5 C06"),
  "C07": ("model_checking", "TLC evaluates Rules!OutcomeAllowed / DrawSimpleAllowed / HasLegal on every recorded position and checks the library's outcome, draw reason and has_legal_moves against them", "5 C07"),
  "C16": ("model_checking", "TLC evaluates Rules!Attackers for 64 squares x 2 colours on every recorded position and compares is_cell_attacked, cell_attackers, is_check, checkers", "5 C16"),
+ "C04": ("model_checking", "TLA+ transcription of do_make_move/do_unmake_move (spec/BoardImpl.tla): TLC checks on the bounded model MC_Impl that unmake inverts make in every component for every semilegal/null move, and validates recorded nested make/unmake walks of the real Board step by step against it (position, hash and all 16 sets restored)", "5 C04"),
+ "C05": ("model_checking", "abstract-key Zobrist hash (XOR = symmetric difference) and occupancy sets in spec/BoardImpl.tla: TLC checks Derived = Scratch in every state of MC_Impl; every recorded state of the real Board is checked for hash = scratch hash, sets = sets rebuilt by the spec, key->hash functional/injective, plus single-feature hash pairs", "5 C05"),
 }
 REASONS = {}
 m = {
